@@ -69,7 +69,16 @@ CoercionLaws ==
     /\ (Obs.inv_pos[i][k].k = "unparsable" \/ Obs.inv_pos[i][k] = want.v) \/ Fail("invocation-positional-" \o want.how, i, 0, k)
     /\ (Obs.inv_named[i][k].k = "unparsable" \/ Obs.inv_named[i][k] = want.v) \/ Fail("invocation-named-" \o want.how, i, 0, k)
 
+\* Outside the listed property (reported, never a violation): the FEEL operator `v instance of T` against
+\* "the type of v conforms to T" (DMN 10.3.2.9); io[i][k] = 1 true / 2 false / 0 anything else, 9 = no surface syntax
+Extra ==
+  LET u == Obs.U  v == Obs.V IN
+  \A i \in 1..Len(u), k \in 1..Len(v) :
+    \/ Obs.io[i][k] = 9 \/ v[k].k = "null"
+    \/ Obs.io[i][k] = (IF Conforms(TypeOf(v[k]), u[i]) THEN 1 ELSE 2)
+    \/ PrintT(<<"EXTRA", ToJson([what |-> "instance-of", i |-> i, k |-> k, got |-> Obs.io[i][k]])>>)
+
 VARIABLE st
 Init == st = 0
-Next == st = 0 /\ st' = 1 /\ Laws /\ CoercionLaws /\ PrintT(<<"LAWS-EVALUATED", Len(Obs.U)>>)
+Next == st = 0 /\ st' = 1 /\ Laws /\ CoercionLaws /\ Extra /\ PrintT(<<"LAWS-EVALUATED", Len(Obs.U)>>)
 =============================================================================
